@@ -730,8 +730,13 @@ class InterfaceClass(_InterfaceClassBase):
                 if '__classcell__' in attrs
                 else {}
             )
-            if '__adapt__' in needs_custom_class:
-                # We need to tell the C code to call this.
+            if (
+                '__adapt__' in needs_custom_class or
+                getattr(cls, '_CALL_CUSTOM_ADAPT', None)
+            ):
+                # We need to tell the C code to call this. It only looks
+                # in the class' own dictionary, so a class derived from
+                # one with a custom ``__adapt__`` needs the flag, too.
                 needs_custom_class['_CALL_CUSTOM_ADAPT'] = 1
 
             if issubclass(cls, _InterfaceClassWithCustomMethods):
